@@ -159,6 +159,9 @@ def step (s : State) (e : Ev) : Except Reject State :=
   | .eat p my cheats =>
     withProc s p fun x =>
       if s.cheatPipe < 1 ∨ x.limbo < 1 then .error (.guard "eat" p)
+      else if x.cheats > 0 then
+        -- repaired (side observation of round 6): a child's exit settles the process's OWN outstanding cheat first
+        .error (.guard "eat: the IOU of another process is taken while the process's own cheat is outstanding" p)
       else
         let y := { x with limbo := x.limbo - 1 }
         check "eat" p y my cheats { s with procs := set s.procs p y, cheatPipe := s.cheatPipe - 1 }
